@@ -3,7 +3,7 @@ CONSTANTS
   NL = 3
   NW = 2
   NT = 3
-  ECodes = {0, 1, 3, 15, 100, 101, 103, 115, 300, 301, 303, 315, 1500, 1501, 1503, 1515}
+  ECodes = {0, 1, 100, 101, 15, 1500, 1515, 1501, 115, 103, 301, 1503}
   TCodes = {111,112,113,121,122,123,131,132,133,211,212,213,221,222,223,231,232,233,311,312,313,321,322,323,331,332,333}
   QuadIds = {2}
   ClampE = 15
